@@ -124,6 +124,11 @@ pub fn run(p: &Params) -> Report {
         } else {
             serial = rng.chance(1, 3);
         }
+        if let Some(b) = &bin {
+            if (i + 1) % (2 * bin_every) == bin_every {
+                binary_export_lifecycle_scenario(&mut rep, b, &mut rng, i);
+            }
+        }
         let _ = gen_case; // (same family as C01)
         let c = gen_stream(&mut rng, serial, &o);
         i += 1;
@@ -309,6 +314,38 @@ fn embedded_marker_case(rep: &mut Report, rng: &mut Rng, rm: &RefMsg, c: &Stream
 }
 
 /// export through the real binary: file -> a.dlt -> b.dlt; a == expected export (to_write of every parsed message), b == a
+/// a lifecycle scenario (several ECUs, boots, merges: the lifecycle stage buffers and releases the messages on all its
+/// paths) written in normal form: the export has to be byte identical to the input
+fn binary_export_lifecycle_scenario(rep: &mut Report, bin: &str, rng: &mut Rng, case_no: u64) {
+    let gen = |rng: &mut Rng| match rng.below(3) {
+        0 => crate::lcgen::gen_targeted(rng),
+        1 => crate::lcgen::gen_scenario(rng, true, 300),
+        _ => crate::lcgen::gen_scenario(rng, false, 300),
+    };
+    // census guided selection (as in C13): prefer a trace on which the detector flushes its buffer after a merge while
+    // messages of several ECUs are queued - the release paths on which the order is at stake
+    let mut s = gen(rng);
+    for _ in 0..40 {
+        let r = crate::c06::run_case(&[crate::lcgen::to_dlt(&s, case_no as u32)], crate::c06::Pacing::None, false, 0);
+        let c = |p: adlt::verif::Point| r.census[p as usize];
+        if s.n_ecus >= 2 && c(adlt::verif::Point::LcOutMergeFlush) > 0 && c(adlt::verif::Point::LcOutConfirmOther) > 0 {
+            rep.inc("bin_exports_of_census_selected_scenarios");
+            break;
+        }
+        s = gen(rng);
+    }
+    let mut bytes = Vec::new();
+    for m in crate::lcgen::to_dlt(&s, case_no as u32) {
+        let _ = m.to_write(&mut bytes);
+    }
+    if bytes.is_empty() {
+        return;
+    }
+    let c = StreamCase { serial: false, bytes: bytes.clone(), msgs: vec![], offsets: vec![], garbage: vec![], repairs: 0 };
+    rep.inc("bin_exports_of_lifecycle_scenarios");
+    binary_export(rep, bin, &c, &bytes);
+}
+
 fn binary_export(rep: &mut Report, bin: &str, c: &StreamCase, export: &[u8]) {
     let dir = match tempfile::tempdir() {
         Ok(d) => d,
